@@ -1,6 +1,7 @@
 -- Root of the `PasslibVerif` library: everything that must build.
 import PasslibVerif.Props.C04
 import PasslibVerif.Props.C06
+import PasslibVerif.Props.C07Static
 import PasslibVerif.Props.C09
 import PasslibVerif.Props.C10
 import PasslibVerif.Props.C11
